@@ -19,3 +19,4 @@ open Verif.Props.C04B
 #print axioms attr_ident_separated
 #print axioms attr_unquote_plain
 #print axioms important_preserved
+#print axioms font_pre_ok
